@@ -80,7 +80,7 @@ class C07(_AppSpec):
             for sel in sels:
                 for s in base:
                     out.append(self.job("c07", dict(s, selection=sel)))
-            small = docs.g1_shards(1) + _strided(docs.g2_shards(docs.load_pool("mini")[:4], replace=True), 3)
+            small = docs.g1_shards(1) + _strided(docs.g2_shards(docs.load_pool("mini")[:4], replace=True), 6)
             for rid in all_rule_ids():
                 for s in small:
                     out.append(self.job("c07", dict(s, selection="only:" + rid)))
